@@ -2,9 +2,11 @@ package main
 
 import (
 	"fmt"
+	"regexp"
 	"strings"
 
 	"github.com/yuin/goldmark"
+	gast "github.com/yuin/goldmark/ast"
 	"github.com/yuin/goldmark/extension"
 	"github.com/yuin/goldmark/parser"
 	"github.com/yuin/goldmark/renderer/html"
@@ -21,6 +23,9 @@ type Config struct {
 	CJK         string `json:"cjk,omitempty"` // "", "default", "css3", "escaped"
 	AutoID      bool   `json:"auto_heading_id,omitempty"`
 	Attribute   bool   `json:"attribute,omitempty"`
+	FootnoteOpt string `json:"footnote_opt,omitempty"` // "", "prefix", "prefixfn", "titles" (only with Footnote)
+	TypoSubs    bool   `json:"typographer_subs,omitempty"` // custom substitutions (only with Typographer)
+	LinkifyOpt  string `json:"linkify_opt,omitempty"` // "", "protocols", "regexp" (only with GFM)
 	Unsafe      bool   `json:"unsafe,omitempty"`
 	XHTML       bool   `json:"xhtml,omitempty"`
 	HardWraps   bool   `json:"hardwraps,omitempty"`
@@ -40,7 +45,14 @@ func (c Config) Key() string {
 	}
 	f(c.DefList, "deflist")
 	f(c.Footnote, "footnote")
+	if c.Footnote && c.FootnoteOpt != "" {
+		b.WriteString("fnopt=" + c.FootnoteOpt + ",")
+	}
 	f(c.Typographer, "typographer")
+	f(c.Typographer && c.TypoSubs, "typosubs")
+	if c.GFM && c.LinkifyOpt != "" {
+		b.WriteString("linkify=" + c.LinkifyOpt + ",")
+	}
 	if c.CJK != "" {
 		b.WriteString("cjk=" + c.CJK + ",")
 	}
@@ -67,33 +79,72 @@ func (c Config) C15Applies() bool { return c.AutoID && !c.Attribute && !c.Unsafe
 func (c Config) Build() goldmark.Markdown {
 	var exts []goldmark.Extender
 	if c.GFM {
-		switch c.TableAlign {
-		case "":
+		if c.TableAlign == "" && c.LinkifyOpt == "" {
 			exts = append(exts, extension.GFM)
-		default:
-			m := extension.TableCellAlignDefault
-			switch c.TableAlign {
-			case "style":
-				m = extension.TableCellAlignStyle
-			case "attribute":
-				m = extension.TableCellAlignAttribute
-			case "none":
-				m = extension.TableCellAlignNone
-			default:
-				panic("bad table_align " + c.TableAlign)
+		} else {
+			var table, linkify goldmark.Extender = extension.Table, extension.Linkify
+			if c.TableAlign != "" {
+				m := extension.TableCellAlignDefault
+				switch c.TableAlign {
+				case "style":
+					m = extension.TableCellAlignStyle
+				case "attribute":
+					m = extension.TableCellAlignAttribute
+				case "none":
+					m = extension.TableCellAlignNone
+				default:
+					panic("bad table_align " + c.TableAlign)
+				}
+				table = extension.NewTable(extension.WithTableCellAlignMethod(m))
 			}
-			exts = append(exts, extension.NewTable(extension.WithTableCellAlignMethod(m)),
-				extension.Strikethrough, extension.Linkify, extension.TaskList)
+			switch c.LinkifyOpt {
+			case "":
+			case "protocols":
+				linkify = extension.NewLinkify(extension.WithLinkifyAllowedProtocols([]string{"http:", "https:", "ftp:", "custom:"}))
+			case "regexp":
+				linkify = extension.NewLinkify(
+					extension.WithLinkifyAllowedProtocols([]string{"http:", "https:"}),
+					extension.WithLinkifyURLRegexp(regexp.MustCompile(`^(?:http|https)://[-a-zA-Z0-9@:%._\+~#=]{1,256}\.[a-z]{2,8}(?:[/?#][^\s<]*)?`)),
+					extension.WithLinkifyWWWRegexp(regexp.MustCompile(`^www\.[-a-zA-Z0-9]{1,64}\.[a-z]{2,8}(?:[/?#][^\s<]*)?`)),
+					extension.WithLinkifyEmailRegexp(regexp.MustCompile(`^[a-zA-Z0-9.+_-]+@[a-zA-Z0-9-]+\.[a-zA-Z]{2,8}`)))
+			default:
+				panic("bad linkify_opt " + c.LinkifyOpt)
+			}
+			exts = append(exts, table, extension.Strikethrough, linkify, extension.TaskList)
 		}
 	}
 	if c.DefList {
 		exts = append(exts, extension.DefinitionList)
 	}
 	if c.Footnote {
-		exts = append(exts, extension.Footnote)
+		switch c.FootnoteOpt {
+		case "":
+			exts = append(exts, extension.Footnote)
+		case "prefix":
+			exts = append(exts, extension.NewFootnote(extension.WithFootnoteIDPrefix("article12-")))
+		case "prefixfn":
+			// a pure function of the document the node belongs to, as a per-page prefix is
+			exts = append(exts, extension.NewFootnote(extension.WithFootnoteIDPrefixFunction(func(n gast.Node) []byte {
+				d := n.OwnerDocument()
+				if d == nil {
+					return []byte("nodoc-")
+				}
+				return []byte(fmt.Sprintf("page%d-", d.ChildCount()))
+			})))
+		case "titles":
+			exts = append(exts, extension.NewFootnote(extension.WithFootnoteLinkTitle("to ^^ (%%)"), extension.WithFootnoteBacklinkTitle("back %% of ^^"),
+				extension.WithFootnoteLinkClass("fl"), extension.WithFootnoteBacklinkClass("bl"), extension.WithFootnoteBacklinkHTML("^"), extension.WithFootnoteIDPrefix("p-")))
+		default:
+			panic("bad footnote_opt " + c.FootnoteOpt)
+		}
 	}
 	if c.Typographer {
-		exts = append(exts, extension.Typographer)
+		if c.TypoSubs {
+			exts = append(exts, extension.NewTypographer(extension.WithTypographicSubstitutions(map[extension.TypographicPunctuation]string{
+				extension.LeftDoubleQuote: "&laquo;", extension.RightDoubleQuote: "&raquo;", extension.LeftSingleQuote: "&sbquo;", extension.EmDash: "--"})))
+		} else {
+			exts = append(exts, extension.Typographer)
+		}
 	}
 	switch c.CJK {
 	case "":
@@ -153,6 +204,17 @@ func genConfig(r *Rng, mode string) Config {
 	}
 	if c.GFM && r.Chance(1, 2) {
 		c.TableAlign = pick(r, []string{"style", "attribute", "none"})
+	}
+	// option streams of their own, so that older replay seeds keep their other choices
+	ro := r.Split("ext-options")
+	if c.GFM && ro.Chance(1, 4) {
+		c.LinkifyOpt = pick(ro, []string{"protocols", "regexp"})
+	}
+	if c.Footnote && ro.Chance(1, 3) {
+		c.FootnoteOpt = pick(ro, []string{"prefix", "prefixfn", "titles"})
+	}
+	if c.Typographer && ro.Chance(1, 4) {
+		c.TypoSubs = true
 	}
 	c.AutoID = r.Chance(1, 2)
 	c.Attribute = r.Chance(1, 3)
